@@ -315,6 +315,8 @@ class Executor:
         """native Python object -> value"""
         if obj is None:
             return NONE
+        if isinstance(obj, list) and id(obj) in self.native_by_id:
+            return self.native_by_id[id(obj)]
         if isinstance(obj, bool):
             return VBool(obj)
         if isinstance(obj, int):
@@ -1127,6 +1129,15 @@ class Executor:
         if type(l) is not type(r):
             if isinstance(l, (VStr, VInt, VTuple, VList, VConst)) and isinstance(r, (VStr, VInt, VTuple, VList, VConst)):
                 return z3.BoolVal(False)
+        if isinstance(l, VObj) and isinstance(r, VObj) and l.cls == r.cls == "Block":
+            # pointer comparison; a block is the static BUFFER iff its `static` flag is set
+            if l is r:
+                return z3.BoolVal(True)
+            if l.fields.get("is_BUFFER"):
+                return r.fields["static"].t
+            if r.fields.get("is_BUFFER"):
+                return l.fields["static"].t
+            return z3.BoolVal(False)
         if isinstance(l, VObj) and isinstance(r, VObj):
             if l is r:
                 return z3.BoolVal(True)
@@ -1848,7 +1859,10 @@ class Executor:
             base, _ = self.eval1(tgt.value, st)
             idx, _ = self.eval1(tgt.slice, st)
             self.check_frame(st, base, tgt)
-            if isinstance(base, VSymCache) and isinstance(idx, VStr) and idx.conc is not None:
+            if isinstance(base, VObj) and base.cls == "Block":
+                from . import cmodel
+                cmodel.block_store(self, st, base, idx, v, tgt)
+            elif isinstance(base, VSymCache) and isinstance(idx, VStr) and idx.conc is not None:
                 base.extra[idx.conc] = v
                 base.removed.discard(idx.conc)
             elif isinstance(base, VDict) and isinstance(idx, VStr) and idx.conc is not None:
